@@ -617,7 +617,13 @@ def pending_timers():
     out = []
     if hasattr(sched, '_heap'):
         for (when, seq, job) in sorted(sched._heap, key=lambda e: e[:2]):
-            out.append((when, job.func_name, (when, seq, job)))
+            try:
+                fn = job.func_name
+            except Exception:
+                # the in-memory job object lost its state (expired and
+                # detached); the real dispatcher would still try to run it
+                fn = '<expired-job-object>'
+            out.append((when, fn, (when, seq, job)))
     else:
         with db_api.transaction():
             calls = db_api.get_delayed_calls(processing=False,
@@ -796,6 +802,8 @@ def snapshot(full=False):
                 'in_context': _plain(t.in_context) if full else None,
                 'runtime_context': _plain(t.runtime_context),
                 'unique_key': t.unique_key, 'type': t.type,
+                'spec_with_items': bool((t.spec or {}).get('with-items')),
+                'spec_join': (t.spec or {}).get('join'),
                 'created_at': str(t.created_at),
             }
         for a in db_api.get_action_executions(sort_keys=[]):
